@@ -397,13 +397,10 @@ func Normalize(dir string, overlay map[string][]byte, goarch string, baseline ma
 	return cur, notes
 }
 
-// anyNewDecl is a cheap syntactic pre-check (no type checking): does any production file declare a
-// function whose key is not in the baseline?
-func anyNewDecl(dir string, overlay map[string][]byte, baseline map[string]bool) bool {
-	found := false
-	fset := token.NewFileSet()
+// walkProdFiles parses (syntax only) every production file of the module under dir and calls f.
+func walkProdFiles(dir string, overlay map[string][]byte, fset *token.FileSet, f func(pkgPath string, file *ast.File)) {
 	_ = filepath.WalkDir(dir, func(path string, d fs.DirEntry, err error) error {
-		if err != nil || found {
+		if err != nil {
 			return nil
 		}
 		if d.IsDir() {
@@ -420,8 +417,8 @@ func anyNewDecl(dir string, overlay map[string][]byte, baseline map[string]bool)
 		if b, ok := overlay[path]; ok {
 			srcb = b
 		}
-		f, perr := parser.ParseFile(fset, path, srcb, parser.SkipObjectResolution)
-		if perr != nil || f == nil {
+		file, perr := parser.ParseFile(fset, path, srcb, parser.SkipObjectResolution)
+		if perr != nil || file == nil {
 			return nil
 		}
 		rel, _ := filepath.Rel(dir, filepath.Dir(path))
@@ -432,12 +429,21 @@ func anyNewDecl(dir string, overlay map[string][]byte, baseline map[string]bool)
 		if !IsProd(pkgPath) {
 			return nil
 		}
-		for _, dd := range f.Decls {
+		f(pkgPath, file)
+		return nil
+	})
+}
+
+// anyNewDecl is a cheap syntactic pre-check (no type checking): does any production file declare a
+// function whose key is not in the baseline?
+func anyNewDecl(dir string, overlay map[string][]byte, baseline map[string]bool) bool {
+	found := false
+	walkProdFiles(dir, overlay, token.NewFileSet(), func(pkgPath string, file *ast.File) {
+		for _, dd := range file.Decls {
 			if fd, ok := dd.(*ast.FuncDecl); ok && !baseline[FuncDeclKey(pkgPath, fd)] {
 				found = true
 			}
 		}
-		return nil
 	})
 	return found
 }
